@@ -17,7 +17,7 @@ Variable e : env.
 (* calls that only touch the temporary name / the temporary inode *)
 Definition tmp_only (x : sys) : Prop :=
   match x with
-  | SysCreate n i => n = tmp e /\ i = tino e
+  | SysCreate n i sd => n = tmp e /\ i = tino e /\ sd = true
   | SysWrite i _ | SysFchmod i _ => i = tino e
   | SysClose _ => True
   | SysUnlink n => n = tmp e
@@ -34,7 +34,7 @@ Proof. split; auto. Qed.
 Lemma same_off_step s s' x : same_off s s' -> tmp_only x -> same_off s (apply1 x s').
 Proof.
   intros [H1 H2] T. destruct x; simpl in *.
-  - destruct T as [-> ->]. split; intros; simpl; rewrite set_other by auto; auto.
+  - destruct T as (-> & -> & _). split; intros; simpl; rewrite set_other by auto; auto.
   - subst i. destruct (inos s' (tino e)); [|split; auto]. split; intros; simpl; auto. rewrite set_other by auto; auto.
   - subst i. destruct (inos s' (tino e)); [|split; auto]. split; intros; simpl; auto. rewrite set_other by auto; auto.
   - split; auto.
@@ -97,17 +97,17 @@ Lemma run_shape e fl s old m : wf0 e s old m ->
   then exists A, trace r = A ++ [SysRename (tmp e) (path e)] /\ Forall (tmp_only e) A /\ err r = false /\
                  ents (apply_all A s) (tmp e) = Some (EFile (tino e)) /\
                  inos (apply_all A s) (tino e) = Some (mkI (concat (wr fl)) (if fl_stat fl then 384%N else m))
-  else Forall (tmp_only e) (trace r) /\ err r = true.
+  else Forall (tmp_only e) (trace r) /\ err r = true /\ (fl_remove fl = false -> ents (cur r) (tmp e) = None).
 Proof.
   intros WF. pose proof WF as (R & Hne & Ht & Hi).
   destruct fl as [c w wok st ch cl rm rn]. unfold mrun, model_wfb, succeeds. simpl fl_create. simpl wr_ok.
-  simpl fl_stat. simpl fl_chmod. simpl fl_close. simpl fl_rename. simpl wr.
+  simpl fl_stat. simpl fl_chmod. simpl fl_close. simpl fl_rename. simpl wr. simpl fl_remove.
   destruct c.
-  { (* CreateTemp fails *) cbn. split; [reflexivity|]. split; [constructor|reflexivity]. }
-  set (s1 := apply1 (SysCreate (tmp e) (tino e)) s).
+  { (* CreateTemp fails *) cbn. split; [reflexivity|]. split; [constructor|]. split; [reflexivity|]. intros _. exact Ht. }
+  set (s1 := apply1 (SysCreate (tmp e) (tino e) true) s).
   set (W := map (SysWrite (tino e)) w).
   set (s2 := apply_all W s1).
-  assert (T1 : tmp_only e (SysCreate (tmp e) (tino e))) by (simpl; auto).
+  assert (T1 : tmp_only e (SysCreate (tmp e) (tino e) true)) by (simpl; auto).
   assert (SO1 : same_off e s s1) by (apply same_off_step; [apply same_off_refl|exact T1]).
   assert (SO2 : same_off e s s2) by (apply same_off_all; [exact SO1|apply writes_tmp_only]).
   assert (I1 : inos s1 (tino e) = Some (mkI [] 384%N)) by (unfold s1; simpl; apply set_same).
@@ -115,13 +115,15 @@ Proof.
   assert (E1 : ents s1 (tmp e) = Some (EFile (tino e))) by (unfold s1; simpl; apply set_same).
   assert (St : stat_mode true s2 (path e) = Some m) by (unfold stat_mode; rewrite (read_same_off e s s2 old m WF SO2); reflexivity).
   cbn [exec exec1 ret err start fl_create fl_stat fl_chmod fl_close fl_remove fl_rename wr wr_ok
-       emit emits set_err set_ret set_fi cur trace fi negb andb orb app].
+       emit emits set_err set_ret set_fi set_nodir nodir cur trace fi negb andb orb app].
   fold s1. fold W. fold s2.
   destruct wok.
   2:{ (* the write fails *)
       cbn. fold s1 W s2. destruct rm; cbn; fold s1 W s2.
-      - split; [unfold s2, s1, apply_all; simpl; rewrite ?fold_left_app; reflexivity|]. split; [|reflexivity]. unfold W. tmpo.
-      - split; [unfold s2, s1, apply_all; simpl; rewrite ?fold_left_app; reflexivity|]. split; [|reflexivity]. unfold W. tmpo. }
+      - split; [unfold s2, s1, apply_all; simpl; rewrite ?fold_left_app; reflexivity|]. split; [unfold W; tmpo|].
+        split; [reflexivity|discriminate].
+      - split; [unfold s2, s1, apply_all; simpl; rewrite ?fold_left_app; reflexivity|]. split; [unfold W; tmpo|].
+        split; [reflexivity|]. intros _. simpl. apply set_same. }
   assert (IC : forall md, inos (apply1 (SysFchmod (tino e) md) s2) (tino e) = Some (mkI (concat w) md))
     by (intros md; simpl; rewrite I2; simpl; apply set_same).
   assert (E2 : ents s2 (tmp e) = Some (EFile (tino e))).
@@ -131,16 +133,16 @@ Proof.
     by (intros md; simpl; rewrite I2; simpl; exact E2).
   destruct st, ch, cl, rm, rn;
     cbn [exec exec1 ret err start fl_create fl_stat fl_chmod fl_close fl_remove fl_rename wr wr_ok
-         emit emits set_err set_ret set_fi cur trace fi negb andb orb app];
+         emit emits set_err set_ret set_fi set_nodir nodir cur trace fi negb andb orb app];
     fold s1; fold W; fold s2; rewrite ?St;
     cbn [exec exec1 ret err start fl_create fl_stat fl_chmod fl_close fl_remove fl_rename wr wr_ok
-         emit emits set_err set_ret set_fi cur trace fi negb andb orb app];
+         emit emits set_err set_ret set_fi set_nodir nodir cur trace fi negb andb orb app];
     (split; [unfold s2, s1, apply_all; simpl; rewrite ?fold_left_app; reflexivity|]).
-  all: try (split; [unfold W; tmpo|reflexivity]).
-  all: match goal with |- exists A, SysCreate ?a ?b :: ?l ++ [?r] = _ /\ _ => exists (SysCreate a b :: l) end.
+  all: try (split; [unfold W; tmpo|split; [reflexivity|intros Hrm; try discriminate; simpl; apply set_same]]).
+  all: match goal with |- exists A, SysCreate ?a ?b ?c :: ?l ++ [?r] = _ /\ _ => exists (SysCreate a b c :: l) end.
   all: split; [reflexivity|]; split; [unfold W; tmpo|]; split; [reflexivity|].
   all: unfold apply_all; simpl; rewrite ?fold_left_app; simpl;
-       change (fold_left (fun s x => apply1 x s) W (apply1 (SysCreate (tmp e) (tino e)) s)) with s2.
+       change (fold_left (fun s x => apply1 x s) W (apply1 (SysCreate (tmp e) (tino e) true) s)) with s2.
   all: try (split; [exact E2|exact I2]).
   all: try (split; [apply EC|apply IC]).
 Qed.
